@@ -37,6 +37,32 @@ theorem scalars_ref (en : Endian) (w : Nat) : ∀ (vs : List Value) (bs : Bytes)
     | obj _ => simp [encTy] at ha
     | null => simp [encTy] at ha
 
+theorem enums_ref (en : Endian) (nm : String) (e : Enum.Decl) : ∀ (vs : List Value) (bs : Bytes),
+    encListWith (encTy { e := en, mode := .ideal } (.enumTy nm e)) vs = .ok bs → Java.encEnums en e vs = .ok bs
+  | [], bs, h => by simpa [encListWith, Java.encEnums] using h
+  | x :: r, bs, h => by
+    simp only [encListWith] at h
+    obtain ⟨a, ha, h2⟩ := bind_ok _ _ _ h
+    obtain ⟨b, hb, h3⟩ := bind_ok _ _ _ h2
+    cases x with
+    | int x =>
+      simp only [encTy] at ha
+      split at ha
+      · rename_i hok
+        have hlt : x < 2 ^ e.width := by
+          simp only [enumOk, Enum.spec, bne_iff_ne, ne_eq] at hok
+          by_cases hge : 2 ^ e.width ≤ x
+          · simp [hge] at hok
+          · omega
+        simp only [Outcome.ok.injEq] at ha h3
+        have hg : ¬ (x ≥ 2 ^ e.width ∨ (!enumOk e x) = true) := by
+          simp only [hok, Bool.not_true, Bool.false_eq_true, or_false]; omega
+        simp only [Java.encEnums, if_neg hg, enums_ref en nm e r b hb, Outcome.bind, putGroup, Nat.mod_eq_of_lt hlt, ha, h3]
+      · cases ha
+    | arr _ => simp [encTy] at ha
+    | obj _ => simp [encTy] at ha
+    | null => simp [encTy] at ha
+
 theorem items_refE (en : Endian) (all : Items) (p : Bytes) (v : Value) : ∀ (is : Items) (bs : Bytes),
     encWfItems is = true → Pdlv.encItems { e := en, mode := .ideal } all (.ok p) p.length v is = .ok bs →
       Java.encItems en all p v is = .ok bs
@@ -82,7 +108,25 @@ theorem items_refE (en : Endian) (all : Items) (p : Bytes) (v : Value) : ∀ (is
           | some _ => simp [encWfItems] at hw
         | dynamic => simp [encWfItems] at hw
         | unknown => simp [encWfItems] at hw
-      | enumTy _ _ => simp [encWfItems] at hw
+      | enumTy nm e =>
+        cases ew with
+        | static k =>
+          cases pad with
+          | none =>
+            simp only [encWfItems, Bool.and_eq_true, decide_eq_true_eq] at hw
+            simp only [Pdlv.encItem] at ha
+            obtain ⟨vs, hvs, h4⟩ := bind_ok _ _ _ ha
+            obtain ⟨u, hu, h5⟩ := bind_ok _ _ _ h4
+            obtain ⟨u2, _, h6⟩ := bind_ok _ _ _ h5
+            obtain ⟨es, hes, h7⟩ := bind_ok _ _ _ h6
+            simp only [padTo, Outcome.ok.injEq] at h7
+            have hg : ¬ (e.width % 8 ≠ 0 ∨ e.width = 0 ∨ e.width > 64) := by omega
+            simp only [Java.encItems, if_neg hg, hvs, hu, Outcome.bind, enums_ref en nm e vs es hes,
+              items_refE en all p v r b hw.2 hb, h7]
+            exact h3
+          | some _ => simp [encWfItems] at hw
+        | dynamic => simp [encWfItems] at hw
+        | unknown => simp [encWfItems] at hw
       | struct _ _ => simp [encWfItems] at hw
       | custom _ _ => simp [encWfItems] at hw
 
